@@ -108,6 +108,32 @@ PROPS = {
         level_text="Size invariant, atomic refusal and equality with the unlimited run are evaluated for every parse and setter call generated.",
         level_note="limits only up to a few hundred bytes are exercised (behaviour near 2^32 is not)",
     ),
+    "C10": dict(
+        legs=[dict(monitor="c10", config="asan", name="c10:spell/asan", args=["--mode", "spell"], cases=K(400000, 40000000)),
+              dict(monitor="hist", config="asan", name="hist:c10/asan", args=["--mode", "c10"], cases=K(100000, 10000000)),
+              dict(monitor="c10", config="plain", name="c10:sweep32/plain", args=["--mode", "sweep32"], cases=K(8000000, 0))],
+        rule="construction oracle: an address is drawn first and rendered in a random valid spelling (IPv4: 1-4 parts, decimal/octal/hex per part, leading zeros, "
+             "upper-case hex, trailing dot, percent-encoded characters; IPv6: compression of any zero run, leading zeros, mixed case, embedded IPv4) or a named "
+             "invalidating mutation is applied (part > 255, last part >= 256^(5-n), 5+ parts, empty part, bad radix digits, overflow boundaries, two '::', 9 pieces, "
+             "5 hex digits, bad embedded IPv4, bracket shapes); pushed through 11 channels (parse of http/wss+credentials+port/file/non-special, set_host, set_hostname, "
+             "relative and scheme-relative and file base inheritance, percent-encoded) for both URL types; expected canonical text and kind known by construction and "
+             "double-checked by the reference host parser; serialised hosts re-parsed (fixed point); host_type compared with the kind implied by the href's host text and "
+             "has_valid_domain with the DNS length rule after every step of random setter/resolution histories; DNS-length label/total boundaries (63/64, 253/254/255); "
+             "IPv4 sweep: quick = seed-strided sample of 2^32 in three forms, thorough = all 2^32 values x {dotted decimal, decimal number, 0x hex}. "
+             "Non-trivial: accepted non-canonical spelling or a rejected one. Distinct: (generator label, channel) + history classes.",
+        floors=dict(quick={"accepted": 50000, "rejected": 20000, "kind_ipv4": 10000, "kind_ipv6": 10000, "compared_with_reference": 50000, "non_canonical_spellings_accepted": 10000,
+                           "histories_run": 1000, "ipv4_parses": 1000000, "dnslength_vectors": 10},
+                    thorough={"accepted": 50000, "rejected": 20000, "kind_ipv4": 10000, "kind_ipv6": 10000, "histories_run": 1000, "ipv4_parses": 12884901888, "ipv4_values_exhaustive_slice": 4294967296}),
+        assumptions=["expected values come from construction (address drawn before its spelling) and from independent serialisers self-tested against ref_url.h's",
+                     "host kind oracle classifies the serialised host text: '[' => IPv6, special scheme and four decimal octets => IPv4, else domain/opaque",
+                     "has_valid_domain is compared with UTS #46 VerifyDnsLength applied to the host text of any kind",
+                     "the 2^32 sweep runs on the uninstrumented -O2 build (volume); the other legs run under ASan/UBSan"],
+        technique="construction-oracle differential monitor + host-kind invariant at every step of random histories + exhaustive IPv4 value sweep, under ASan/UBSan (sweep: plain build)",
+        level_text="Expected canonical hosts are known before the spelling is generated, so every parse/setter/inheritance execution carries its own verdict; the thorough tier "
+                   "enumerates the complete 32-bit IPv4 value space in three textual forms.",
+        level_note="IPv6 value space is sampled (10^5-10^7 addresses), IPv4 spellings beyond the three swept forms are sampled; trusted: construction code in monitors/c10.cpp, ref_url.h host parser",
+        exhaustive=K(False, True),
+    ),
     "C11": dict(
         legs=[dict(monitor="c11", config="asan", cases=K(100000, 10000000))],
         rule="exhaustive: 7 sets x 256 byte values through ada::unicode::percent_encode (all overloads, percent_encode_index, the bitmaps read directly), "
